@@ -31,7 +31,7 @@ TIERS = {
     },
     "thorough": {
         "id": 2,
-        "runs": 150000,
+        "runs": 100000,
         "twin_share": 1.0,
         "echo_share": 0.01,
         "cfg": {"steps": [24, 40, 60, 80], "clients": [1, 2, 3, 4], "fault_free_share": 0.2,
